@@ -13,8 +13,15 @@ ESCAPE_HATCH = {"clear_caches": "escape hatch by design: drops the unfinished bl
 
 
 def engine_methods(F):
-    return {f.j["method"]: f for f in F.fns.values()
-            if f.kind == "method" and f.name.startswith("engine::engine::BRC20ProgEngine::") and f.j.get("method")}
+    """name -> engine method, each with its private non-anchor helpers virtually inlined; helpers that exist only as the
+    product of an extract-method refactoring are not entries of their own"""
+    from facts import is_private_helper
+    cache = F.__dict__.setdefault("_engine_methods", None)
+    if cache is None:
+        cache = {f.j["method"]: F.inlined(f) for f in F.fns.values()
+                 if f.kind == "method" and f.name.startswith("engine::engine::BRC20ProgEngine::") and f.j.get("method") and not is_private_helper(f)}
+        F.__dict__["_engine_methods"] = cache
+    return cache
 
 
 def err_propagated(fn, call):
@@ -128,7 +135,7 @@ def clause_validate_before_mutate(R, F, CG):
 
     # read-path shape excluded: functions whose only container effect is the slot move are not mutators
     def is_mutation_site(fn, c):
-        site = LM.site_by_call.get((fn.id, c.bb))
+        site = LM.site_by_call.get(fn.prov(c.bb))
         if site and site["mode"] == "W":
             effs = set()
             for t in CG.site_targets(c):
@@ -194,7 +201,7 @@ def clause_validate_before_mutate(R, F, CG):
                  "engine.%s reaches a state mutation (%s) that is not dominated by a validator (%s, or an inline waiting-count guard) whose "
                  "error is propagated: a call that should be refused changes state" % (name, ", ".join(sorted(set(what))[:4]) or "write_fn", " / ".join(VALIDATORS)),
                  sample={"rule": "DOM-before", "entry": name, "mutation": sorted(set(what))[:3], "validator": why})
-    R.floor("engine_mutation_sites", n, 8)
+    R.floor("engine_mutation_sites", n, 6)
     # validators are effect free
     for role, v in (("next-tx", "validate_next_tx"), ("boundary", "require_no_waiting_txes")):
         f = validator_fn(F, role)
